@@ -71,6 +71,12 @@ def check(ctx: Ctx) -> str:
 
     r3_safe_repr(ctx, "R11")
     r0_fold_failures(ctx, "R12")
+    # R5 accepts the AssertionError of Symbols.ref and the NotImplementedError of
+    # enter_frame / RootVisitor.generic_visit as unreachable *because* the symbol analysis
+    # covers exactly what the compiler visits: re-check those rules here
+    from . import c03
+
+    ctx.run_imported("C03", {"R1", "R7", "R6"}, c03.check)
     return __doc__ or ""
 
 
